@@ -348,11 +348,23 @@ def reference(B):
     return R
 
 
-def observe(B, dex, analysis):
+def prepend_nops(dex, d, m):
+    """edit through the public API: two nops in front of the code.  Every branch and payload reference is relative, so
+    the method stays well formed, payloads stay 4-byte aligned, and every instruction moves 4 bytes up."""
+    cm = d.get_class_manager()
+    old = list(m.get_instructions())
+    m.set_instructions([dex.Instruction10x(cm, b'\x00\x00'), dex.Instruction10x(cm, b'\x00\x00')] + old)
+
+
+def observe(B, dex, analysis, edit=False):
     """runs inside the explored path: real DEX() + MethodAnalysis, returns plain data with possibly symbolic offsets"""
     d = dex.DEX(SBytes(B.items))
     m = [x for x in d.get_encoded_methods() if x.get_name() == 'f'][0]
     ma = analysis.MethodAnalysis(d, m)
+    if edit:
+        # history on the same object: analysed, instruction list replaced, analysed again
+        prepend_nops(dex, d, m)
+        ma = analysis.MethodAnalysis(d, m)
     ins_list = list(m.get_instructions_idx())
     off_of = {id(ins): off for off, ins in ins_list}
     blocks = list(ma.get_basic_blocks().get())
@@ -436,11 +448,14 @@ def in_method(B, which):
 BRANCH_OPS = {0x28, 0x29, 0x2a} | set(range(0x32, 0x3e)) | {0x2b, 0x2c, 0x0e, 0x0f, 0x10, 0x11, 0x27}
 
 
-def concrete_cfg(dex, analysis_mod, blob):
+def concrete_cfg(dex, analysis_mod, blob, edit=False):
     """observed CFG of method f of a concrete skeleton, via the real code, as plain JSON-able data"""
     d = dex.DEX(blob)
     m = [x for x in d.get_encoded_methods() if x.get_name() == 'f'][0]
     ma = analysis_mod.MethodAnalysis(d, m)
+    if edit:
+        prepend_nops(dex, d, m)
+        ma = analysis_mod.MethodAnalysis(d, m)
     ins_list = [(off, ins) for off, ins in m.get_instructions_idx()]
     off_of = {id(ins): off for off, ins in ins_list}
     blocks = list(ma.get_basic_blocks().get())
@@ -535,7 +550,9 @@ def any_eq(term, values):
 
 
 def job(jc, spec):
-    which, t = spec
+    which, t = spec[:2]
+    edit = len(spec) > 2 and spec[2] == 'edit'
+    shift = 4 if edit else 0
     dex, analysis = setup()
     B = build(t)
     R = reference(B)
@@ -543,16 +560,16 @@ def job(jc, spec):
     eng = jc.new_engine(pre=B.pre)
     import time as _time
     t_start = _time.time()
-    total = 2 * B.total_units
-    starts = B.starts_all
-    label = '%s %s' % (which, '/'.join(t.body))
+    total = 2 * B.total_units + shift
+    starts = ([0, 2] if edit else []) + [x + shift for x in B.starts_all]
+    label = '%s %s%s' % (which, '/'.join(t.body), ' [analysed, two nops prepended with set_instructions, analysed again]' if edit else '')
 
     def ext(m):
         tries = []
         for (ts, te, hl) in R.tries:
             ev = lambda e: m.eval(e, model_completion=True).as_signed_long()
             tries.append([ev(ts), ev(te), [ev(a) for _, a in hl], [n for n, _ in hl]])
-        return dict(prop=which, blob=concrete_instance(B, m).hex(), tries=tries, history=decoy.hex())
+        return dict(prop=which, blob=concrete_instance(B, m).hex(), tries=tries, history=decoy.hex(), edit=edit)
     regions = {}
     if which == 'C12':
         # finding region: a try range that ends strictly inside a block which started inside it
@@ -563,7 +580,7 @@ def job(jc, spec):
         # history: the process has analysed another file of the same layout before (the template with its default
         # operands); what it learnt there must not leak into this analysis.  Replays repeat the same history.
         concrete_cfg(dex, analysis, decoy)
-        return observe(B, dex, analysis)
+        return observe(B, dex, analysis, edit)
     for pc, (kind, ob) in eng.explore(go, keep_pcs=True):
         jc.reached('explored')
         if kind == 'exc':
@@ -639,7 +656,7 @@ def job(jc, spec):
                 obs['edge / handler offsets are instruction offsets'] = z3.And([any_eq(x, starts) for x in terms] + [z3.BoolVal(True)])
             for b in blocks:
                 for o2, (spoff, sptype) in b['special'].items():
-                    i = B.uoff.index(o2 // 2)
+                    i = B.uoff.index((o2 - shift) // 2)
                     link = 2 * B.q('r%d' % i) + o2
                     if spoff is None:
                         obs['payload link of @%d' % o2] = z3.Not(any_eq(link, starts))
@@ -680,7 +697,14 @@ def run(ctx, which):
     mod = _sys.modules['vf.checks.%s' % which.lower()]
     cases = [build(t).blob.hex() for t in ts[:8]]
     ctx.diff_unhooked(mod, cases)
-    ctx.pmap(job, [(which, t) for t in ts])
+    jobs = [(which, t) for t in ts]
+    if which == 'C40':
+        # the same templates once more with an edit between two analyses (templates without try items: set_instructions
+        # does not move try ranges, so a shifted method with tries is not well formed)
+        jobs += [(which, t, 'edit') for t in ts if not t.tries]
+        ctx.bounds['edited'] = '%d templates also analysed, edited with set_instructions (two nops in front) and analysed again' % (
+            len(jobs) - len(ts))
+    ctx.pmap(job, jobs)
 
 
 def concrete(c):
@@ -700,7 +724,7 @@ def replay(w):
     try:
         if w.get('history'):
             concrete_cfg(dex, analysis, dexasm.fix_checksum(bytes.fromhex(w['history'])))
-        got = concrete_cfg(dex, analysis, blob)
+        got = concrete_cfg(dex, analysis, blob, bool(w.get('edit')))
     except Exception as e:
         return True, 'analysis of the witness method raised %r' % e
     spec = spec_cfg(got['ins'], [(t_[0], t_[1], t_[2]) for t_ in w['tries']])
